@@ -656,8 +656,67 @@ void aliasing_all() {
   aliasing<T>("Dyad", d, [](Dyad<T>& x, int k) -> const T& { return x.Mutable_xx_xy_xz_yx_yy_yz_zx_zy_zz()[k]; });
 }
 
+// A direction operand behaves in every product as the (unit) vector it stores: each overload that takes a Direction /
+// PlanarDirection is compared with the same call on direction.Value().
+// 4 ulp of the largest magnitude involved (the two sides may round differently; on this tree they agree bitwise).
+template <class T, class L, class R>
+void same_as(const char* what, const L& with_direction, const R& with_value, T scale) {
+  static_assert(vf::count_of<L>() == vf::count_of<R>() || true);
+  constexpr int n = vf::count_of<L>() < vf::count_of<R>() ? vf::count_of<L>() : vf::count_of<R>();
+  T a[9], b[9];
+  vf::comps(with_direction, a);
+  vf::comps(with_value, b);
+  vf::stat("direction_operand_cases");
+  for (int i = 0; i < n; i++)
+    if (!(std::fabs((double)(a[i] - b[i])) <= 4.0 * (double)std::numeric_limits<T>::epsilon() * (double)scale)) {
+      vf::viol(std::string("tensor|direction-operand|") + what + "|" + vf::TName<T>::value,
+               std::string("{\"operation\":") + vf::jstr(what) + ",\"with_direction\":" + vf::comps_hex(with_direction) + ",\"with_its_value\":" + vf::comps_hex(with_value) + "}");
+      return;
+    }
+}
+template <class T>
+void direction_operands() {
+  using namespace PhQ;
+  const T vs[][3] = {{1, 2, 3}, {-2, 3, -1}, {3, -1, 2}, {0, 0, -4}, {(T)0.3L, (T)-1.7L, (T)2.9L}, {5, 0, 1}};
+  long idx = 0;
+  for (const auto& a : vs)
+    for (const auto& b : vs) {
+      if (!mine(idx++)) continue;
+      const Vector<T> v(a[0], a[1], a[2]);
+      const Direction<T> d(b[0], b[1], b[2]), e(a[2], a[0], -a[1]);
+      const PlanarVector<T> pv(a[0], a[1]);
+      const PlanarDirection<T> pd(b[1], b[2] + 1), pe(a[1], -a[0] + (T)0.5);
+      const Dyad<T> M(a[0], a[1], a[2], b[0], b[1], b[2], a[2], b[0], a[1]);
+      const SymmetricDyad<T> S(a[0], a[1], a[2], b[0], b[1], b[2]);
+      const T sc = 6;
+      same_as<T>("Vector.Dot(Direction)", Vector<T>(v.Dot(d), 0, 0), Vector<T>(v.Dot(d.Value()), 0, 0), 3 * sc);
+      same_as<T>("Direction.Dot(Vector)", Vector<T>(d.Dot(v), 0, 0), Vector<T>(d.Value().Dot(v), 0, 0), 3 * sc);
+      same_as<T>("Direction.Dot(Direction)", Vector<T>(d.Dot(e), 0, 0), Vector<T>(d.Value().Dot(e.Value()), 0, 0), 3);
+      same_as<T>("Vector.Cross(Direction)", v.Cross(d), v.Cross(d.Value()), 2 * sc);
+      same_as<T>("Direction.Cross(Vector)", d.Cross(v), d.Value().Cross(v), 2 * sc);
+      same_as<T>("Vector.Dyadic(Direction)", v.Dyadic(d), v.Dyadic(d.Value()), sc);
+      same_as<T>("Direction.Dyadic(Vector)", d.Dyadic(v), d.Value().Dyadic(v), sc);
+      same_as<T>("Direction.Dyadic(Direction)", d.Dyadic(e), d.Value().Dyadic(e.Value()), 1);
+      same_as<T>("Dyad*Direction", M * d, M * d.Value(), 3 * sc);
+      same_as<T>("SymmetricDyad*Direction", S * d, S * d.Value(), 3 * sc);
+      same_as<T>("Vector(magnitude, Direction)", Vector<T>((T)2.5, d), d.Value() * (T)2.5, 3);
+      same_as<T>("PlanarVector.Dot(PlanarDirection)", Vector<T>(pv.Dot(pd), 0, 0), Vector<T>(pv.Dot(pd.Value()), 0, 0), 2 * sc);
+      same_as<T>("PlanarDirection.Dot(PlanarVector)", Vector<T>(pd.Dot(pv), 0, 0), Vector<T>(pd.Value().Dot(pv), 0, 0), 2 * sc);
+      same_as<T>("PlanarDirection.Dot(PlanarDirection)", Vector<T>(pd.Dot(pe), 0, 0), Vector<T>(pd.Value().Dot(pe.Value()), 0, 0), 2);
+      same_as<T>("PlanarVector.Cross(PlanarDirection)", pv.Cross(pd), pv.Cross(pd.Value()), 2 * sc);
+      same_as<T>("PlanarDirection.Cross(PlanarVector)", pd.Cross(pv), pd.Value().Cross(pv), 2 * sc);
+      same_as<T>("PlanarVector.Dyadic(PlanarDirection)", pv.Dyadic(pd), pv.Dyadic(pd.Value()), sc);
+      same_as<T>("PlanarDirection.Dyadic(PlanarVector)", pd.Dyadic(pv), pd.Value().Dyadic(pv), sc);
+      same_as<T>("PlanarDirection.Dyadic(PlanarDirection)", pd.Dyadic(pe), pd.Value().Dyadic(pe.Value()), 1);
+      same_as<T>("Dyad*PlanarDirection", M * pd, M * pd.Value(), 3 * sc);
+      same_as<T>("SymmetricDyad*PlanarDirection", S * pd, S * pd.Value(), 3 * sc);
+      same_as<T>("PlanarVector(magnitude, PlanarDirection)", PlanarVector<T>((T)2.5, pd), pd.Value() * (T)2.5, 3);
+    }
+}
+
 template <class T>
 void all() {
+  direction_operands<T>();
   aliasing_all<T>();
   integer_grids<T>();
   real_inputs<T>();
